@@ -215,6 +215,16 @@ type volFile struct {
 
 	afterSync  func()
 	afterWrite func()
+
+	id       int64
+	failSync int                  // injected fsync failure: 0 none, 1 the next Sync, 2 every Sync
+	syncLog  *[]syncCall          // the fsyncs made, in order (shared with the world)
+	logMu    *sync.Mutex
+}
+
+type syncCall struct {
+	vol int64
+	ok  bool
 }
 
 func (f *volFile) ReadAt(p []byte, off int64) (int, error) { return f.inner.ReadAt(p, off) }
@@ -236,7 +246,23 @@ func (f *volFile) WriteAt(p []byte, off int64) (int, error) {
 }
 
 func (f *volFile) Sync() error {
-	err := f.inner.Sync()
+	f.mu.Lock()
+	fail := f.failSync
+	if fail == 1 {
+		f.failSync = 0
+	}
+	f.mu.Unlock()
+	var err error
+	if fail != 0 {
+		err = errInjected // the fsync fails: nothing becomes durable
+	} else {
+		err = f.inner.Sync()
+	}
+	if f.syncLog != nil {
+		f.logMu.Lock()
+		*f.syncLog = append(*f.syncLog, syncCall{f.id, err == nil})
+		f.logMu.Unlock()
+	}
 	f.mu.Lock()
 	if err == nil {
 		f.dirty = map[uint64]bool{}
@@ -287,6 +313,8 @@ type world struct {
 	files   map[int64]*volFile
 	parked  *parkedResize
 	lastRoot int // root of the last upload a syncrace made (replay files may refer to it as L)
+	syncLog  []syncCall
+	logMu    sync.Mutex
 	volPath map[int64]string
 	nvol    int
 	metaInt map[types.Hash256]int
@@ -332,7 +360,7 @@ func (w *world) open() {
 
 // wrapVolume puts the recording wrapper around the data file of a loaded volume.
 func (w *world) wrapVolume(id int64) {
-	f := &volFile{dirty: map[uint64]bool{}}
+	f := &volFile{dirty: map[uint64]bool{}, id: id, syncLog: &w.syncLog, logMu: &w.logMu}
 	if w.vm.VerifWrapVolumeData(id, func(inner storage.VerifVolumeData) storage.VerifVolumeData {
 		f.inner = inner
 		return f
@@ -363,6 +391,7 @@ type parkedResize struct {
 }
 
 func (w *world) shutdown() {
+	w.disarmSyncFailures()
 	if w.parked != nil {
 		close(w.parked.release)
 		<-w.parked.done
@@ -1210,10 +1239,49 @@ func fmtSlots(m map[[2]uint64]bool) string {
 	return "[" + strings.Join(ss, ",") + "]"
 }
 
-func (w *world) doSync() {
+func (w *world) doSync() string {
+	w.logMu.Lock()
+	w.syncLog = nil
+	w.logMu.Unlock()
 	res := try(func() error { return w.vm.Sync() })
+	w.logMu.Lock()
+	var oks, failed []int64
+	for _, c := range w.syncLog {
+		if c.ok {
+			oks = append(oks, c.vol)
+		} else {
+			failed = append(failed, c.vol)
+		}
+	}
+	w.logMu.Unlock()
 	// what the data files say is still not fsynced although Sync returned
-	w.line("sync", fmt.Sprintf("res=%s unsynced=%s", res, fmtSlots(w.unsynced())))
+	w.line("sync", fmt.Sprintf("res=%s synced=%s failed=%s unsynced=%s", res, vhlib.FmtList(oks), vhlib.FmtList(failed), fmtSlots(w.unsynced())))
+	return res
+}
+
+// doSyncFail arms (once / sticky) or disarms (off) a failure of the fsync of volume v's data file.
+func (w *world) doSyncFail(v int64, mode string) {
+	if f := w.files[v]; f != nil {
+		f.mu.Lock()
+		switch mode {
+		case "once":
+			f.failSync = 1
+		case "sticky":
+			f.failSync = 2
+		default:
+			f.failSync = 0
+		}
+		f.mu.Unlock()
+	}
+	w.tr.Line(fmt.Sprintf("syncfail v=%d mode=%s", v, mode), "")
+}
+
+func (w *world) disarmSyncFailures() {
+	for _, f := range w.files {
+		f.mu.Lock()
+		f.failSync = 0
+		f.mu.Unlock()
+	}
 }
 
 // doSyncRace steers two RPCs sharing volume v: S calls Sync() while B uploads
